@@ -96,7 +96,10 @@ Definition gen_flow_record : Gen srec :=
   | 9 => gdo n <- g32; gdo l <- grange 0 40; gdo s <- gbytes (N.to_nat l); gdo d <- grand 3;
          gret (mk 1037 KAcl [n; d] [s] [])
   | 10 => gdo l <- grange 0 40; gdo s <- gbytes (N.to_nat l); gret (mk 1038 KFunc [] [s] [])
-  | _ => gdo f <- gpick 5 [5; 6; 1004; 1005; 1035; 2000; 4294967295];
+  (* unknown formats: unassigned standard numbers, and vendor records -- data_format = enterprise << 12 | number -- whose
+     number is one of the standard ones (HP = 11, Cisco = 9, IBM = 2, enterprises of 1, 8, 9 and 13 bits) *)
+  | _ => gdo f <- gpick 5 [5; 6; 1004; 1005; 1035; 2000; 4294967295; 4097; 4098; 5097; 8195; 37867; 45058; 45060; 46082;
+                           1044481; 1045481; 1048577; 1049577; 17612803; 17613801; 4294963201];
          gdo l <- grange 0 10; gdo b <- gbytes (4 * N.to_nat l); gret (mk f KRaw [] [b] [])
   end.
 
@@ -107,7 +110,7 @@ Definition gen_counter_record : Gen srec :=
                      (gret []) if_counters_ws;
          gret (mk 1 KIfCounters vs [] [])
   | 1 => gdo vs <- g32s 13; gret (mk 2 KEthCounters vs [] [])
-  | _ => gdo f <- gpick 3 [3; 4; 5; 1001]; gdo l <- grange 0 10; gdo b <- gbytes (4 * N.to_nat l);
+  | _ => gdo f <- gpick 3 [3; 4; 5; 1001; 4097; 4098; 45057; 45058; 1044482; 1048577; 17612802]; gdo l <- grange 0 10; gdo b <- gbytes (4 * N.to_nat l);
          gret (mk f KRaw [] [b] [])
   end.
 
